@@ -694,8 +694,12 @@ func (g *G) genesis() *script.Genesis {
 	if g.chance(g.w.longPct * 2) {
 		for _, l := range []string{"L1", "L0"}[:1+g.rng.Intn(2)] {
 			if l == "L1" && g.chance(35) {
-				l = "L5" // shares its first 20 bytes with A0; may buy eFUND (whitelisted, raises through its grantee)
-				gs.Ent.WL = append(gs.Ent.WL, l)
+				l = "L5" // shares its first 20 bytes with A0; may buy eFUND (raises through its grantee) — when it is whitelisted itself:
+				if g.chance(50) { // … A0's entry must not count for it
+					gs.Ent.WL = append(gs.Ent.WL, l)
+				} else if len(gs.Ent.WL) == 0 || gs.Ent.WL[0] != "A0" {
+					gs.Ent.WL = append([]string{"A0"}, gs.Ent.WL...)
+				}
 				gs.Grants = append(gs.Grants, [3]string{l, A(g.rng.Intn(g.n)), "ent.raise"})
 			}
 			gs.Long = append(gs.Long, [2]string{l, "1000000000000000nund,1000000000btoken"})
